@@ -1,0 +1,32 @@
+//go:build verif
+
+package util
+
+// Machine-checked contracts for the verification machinery in /verif (govc).
+// This file contains comments only and is compiled only with -tags verif.
+
+//@ func OnOrAfter [C03]
+//@   pure
+//@   nopanic
+//@   ensures result == (inst(left) >= inst(right))
+
+//@ func BeforeOrOn [C03]
+//@   pure
+//@   nopanic
+//@   ensures result == (inst(left) <= inst(right))
+
+// scope predicates used by the framework (C04); functional contracts below.
+
+//@ func IsServerAuthCert [C04]
+//@   pure
+//@   requires cert != nil
+//@   nopanic
+
+//@ func IsEmailProtectionCert [C04]
+//@   pure
+//@   requires cert != nil
+//@   nopanic
+
+//@ func IsCodeSigning [C04]
+//@   pure
+//@   nopanic
